@@ -141,6 +141,25 @@ def _roundtrip(case, rec, tmp):
         probs = _independent_validate(doc1)
         verdict = guarded(validate_input_file, p1, what="validate_input_file")
     tag = {"method": case["method"], "perimeter_ratio": case["geom"].get("perimeter_spacing_ratio", "n/a") is not None}
+    # the file must record what was configured through the setters (a write -> load -> write fixed point alone would
+    # not notice a value that is already wrong in the first file)
+    b = case["bhe"]
+    want = {"fluid/fluid_name": b["fluid"]["name"], "fluid/concentration_percent": b["fluid"]["pct"],
+            "grout/conductivity": b["grout"]["k"], "grout/rho_cp": b["grout"]["rhoCp"], "soil/conductivity": b["soil"]["k"],
+            "soil/rho_cp": b["soil"]["rhoCp"], "soil/undisturbed_temp": b["soil"]["ugt"], "pipe/arrangement": b["pipe"]["type"],
+            "borehole/buried_depth": b["borehole"]["D"], "borehole/diameter": 2 * b["borehole"]["r_b"],
+            "simulation/num_months": case["months"], "design/flow_rate": case["flow"], "design/flow_type": case["flow_type"],
+            "design/max_eft": case["max_eft"], "design/min_eft": case["min_eft"],
+            "geometric_constraints/method": case["method"], "geometric_constraints/max_height": case["hmax"],
+            "geometric_constraints/min_height": case["hmin"]}
+    for path, exp in want.items():
+        sec, key = path.split("/")
+        got = doc1.get(sec, {}).get(key)
+        same = (str(got).upper() == str(exp).upper()) if isinstance(exp, str) else \
+            (isinstance(got, (int, float)) and abs(got - exp) <= 1e-9 * max(abs(exp), 1e-300))
+        if not same:
+            raise Violation(f"written file has {path} = {got!r}, configured through the API: {exp!r}",
+                            sig={"kind": "file_differs_from_configuration", "field": path})
     if probs:
         raise Violation(f"written {case['method']} input file violates the tool's schemas: {probs[0]}",
                         sig={"kind": "written_file_invalid", "where": probs[0].split(":")[0], **tag})
